@@ -259,6 +259,46 @@ pub open spec fn proof_ok(p: &Proof) -> bool {
             && nodes_ok(p.upgrade->Some_0.nodes@) && nodes_ok(p.upgrade->Some_0.additional_nodes@) && p.upgrade->Some_0.signature@.len() <= 0x10_0000
 }
 
+// ---- what a proof section authenticates: the root obtained by folding its sibling list, bottom up ----
+/// the authenticated content of a node
+pub struct SNode { pub index: u64, pub hash: Seq<u8>, pub length: u64 }
+pub open spec fn sn(n: Node) -> SNode { SNode { index: n.index, hash: n.hash@, length: n.length } }
+/// parent of two nodes by the scheme: 0x01 ++ LE64(size sum) ++ hashes, children ordered by index
+pub open spec fn sn_parent(idx: u64, a: SNode, b: SNode) -> SNode {
+    SNode { index: idx, length: (a.length + b.length) as u64,
+        hash: if a.index <= b.index { crypto::blake2b(crypto::parent_preimage(a.length, a.hash, b.length, b.hash)) }
+              else { crypto::blake2b(crypto::parent_preimage(b.length, b.hash, a.length, a.hash)) } }
+}
+/// the position of the parent of the node an iterator is on
+pub open spec fn it_up(it: flat_tree::Iterator) -> flat_tree::Iterator {
+    flat_tree::Iterator { index: (if it.offset % 2 == 0 { it.index + it.factor / 2 } else { it.index - it.factor / 2 }) as u64,
+        offset: it.offset / 2, factor: (2 * it.factor) as u64, d: Ghost(it.d@ + 1) }
+}
+pub open spec fn leaf_it(index: u64) -> flat_tree::Iterator { flat_tree::Iterator { index: index, offset: index / 2, factor: 2, d: Ghost(0) } }
+/// root recomputed from `cur` (at position `it`) and the siblings sibs[k..], each one level up
+pub open spec fn fold_up(it: flat_tree::Iterator, cur: SNode, sibs: Seq<Node>, k: int) -> SNode
+    decreases sibs.len() - k
+{
+    if k >= sibs.len() { cur } else { fold_up(it_up(it), sn_parent(it_up(it).index, cur, sn(sibs[k])), sibs, k + 1) }
+}
+pub proof fn lemma_fold_up_same(it: flat_tree::Iterator, cur: SNode, a: Seq<Node>, b: Seq<Node>, k: int)
+    requires nodes_same(a, b), 0 <= k
+    ensures fold_up(it, cur, a, k) == fold_up(it, cur, b, k)
+    decreases a.len() - k
+{
+    if k < a.len() {
+        assert(Node::eqv(a[k], b[k]));
+        assert(sn(a[k]) == sn(b[k]));
+        lemma_fold_up_same(it_up(it), sn_parent(it_up(it).index, cur, sn(a[k])), a, b, k + 1);
+    }
+}
+/// the root a block proof section authenticates: leaf = (2*index, H_leaf(value), |value|), then its sibling list folded in
+pub open spec fn block_root(b: &DataBlock) -> SNode {
+    fold_up(leaf_it((2 * b.index) as u64), SNode { index: (2 * b.index) as u64, hash: crypto::h_leaf(b.value@), length: b.value@.len() as u64 }, b.nodes@, 0)
+}
+pub open spec fn no_seek_nodes(seek: Option<&DataSeek>) -> bool { seek is None || seek->Some_0.nodes@.len() == 0 }
+pub open spec fn no_seek_nodes_o(seek: Option<DataSeek>) -> bool { seek is None || seek->Some_0.nodes@.len() == 0 }
+
 /*@ fn src/tree/merkle_tree.rs fn verify_tree
 tags: C04 C09 C03
 result: r
@@ -276,7 +316,12 @@ ensures:
         && final(changeset).original_tree_length == old(changeset).original_tree_length
         && final(changeset).original_tree_fork == old(changeset).original_tree_fork && final(changeset).batch_length == old(changeset).batch_length,
     r is Ok ==> final(changeset).nodes@.len() <= 0x20_0010,
-    r is Ok && r->Ok_0 is Some ==> r->Ok_0->Some_0.index < 0x200_0000_0000 && r->Ok_0->Some_0.length <= 0x2000_0000_0000_0000
+    r is Ok && r->Ok_0 is Some ==> r->Ok_0->Some_0.index < 0x200_0000_0000 && r->Ok_0->Some_0.length <= 0x2000_0000_0000_0000,
+    // C04 root recomputation: for a block section (no seek nodes) the node handed back is exactly the root obtained from
+    // the leaf (2*index, H_leaf(value), |value|) and the section's siblings, each parent = H_parent(children), size = sum
+    r is Ok && block is Some && no_seek_nodes(seek) ==> r->Ok_0 is Some && sn(r->Ok_0->Some_0) == block_root(block->Some_0),
+    // a section that is present always yields a root to be checked (the gate cannot be skipped)
+    r is Ok && (block is Some || hash is Some) ==> r->Ok_0 is Some
 first:
     let ghost cs0 = *changeset;
 loop 1:
@@ -293,8 +338,18 @@ loop 2:
         qnodes_ok(q), q.nodes@.len() <= 0x8_0000,
         current_root.length + (if q.extra is Some { q.extra->Some_0.length as int } else { 0 }) <= (q.i + 1) * 0x100_0000_0000 + 0x1000_0000_0000_0000,
         changeset.nodes@.len() <= 0x10_0004 + 2 * q.i + (if q.extra is Some { 0int } else { 2 }),
-        verify_frame(changeset, &cs0)
+        verify_frame(changeset, &cs0),
+        block is Some && no_seek_nodes(seek) ==> q.extra is None && nodes_same(q.nodes@, block->Some_0.nodes@)
+            && fold_up(iter, sn(current_root), q.nodes@, q.i as int) == fold_up(leaf_it((2 * block->Some_0.index) as u64),
+                SNode { index: (2 * block->Some_0.index) as u64, hash: crypto::h_leaf(block->Some_0.value@), length: block->Some_0.value@.len() as u64 }, q.nodes@, 0)
     decreases q.length
+before `root = Some(current_root);`#2:
+    proof {
+        if block is Some && no_seek_nodes(seek) {
+            lemma_fold_up_same(leaf_it((2 * block->Some_0.index) as u64),
+                SNode { index: (2 * block->Some_0.index) as u64, hash: crypto::h_leaf(block->Some_0.value@), length: block->Some_0.value@.len() as u64 }, q.nodes@, block->Some_0.nodes@, 0);
+        }
+    }
 before `let node = q.shift(iter.sibling())?;`#1:
     proof { lemma_index_depth(iter); }
 before `let node = q.shift(iter.sibling())?;`#2:
@@ -369,6 +424,13 @@ impl MerkleTree {
     /// the stored tree is long enough for 2*length to be computed (the length of a core is below 2^40)
     pub open spec fn t_wf(&self) -> bool { self.length <= 0xff_ffff_ffff && self.byte_length <= 0xff_ffff_ffff_ffff && self.truncate_to <= 0xff_ffff_ffff && self.roots@.len() <= 64 }
 
+    /// the node this replica already trusts for `index`: the unflushed (verified, not yet written) one, else the one just read from the tree store
+    pub open spec fn trusted(&self, index: u64, nodes: &IntMap<Option<Node>>) -> Option<Node> {
+        if self.unflushed@.contains_key(index) { Some(self.unflushed@[index]) }
+        else if nodes@.contains_key(index) { nodes@[index] }
+        else { None }
+    }
+
     /*@ fn src/tree/merkle_tree.rs MerkleTree::node
     tags: C09 C03 C04
     result: r
@@ -379,7 +441,11 @@ impl MerkleTree {
         r is Ok && r->Ok_0 is Left ==> r->Ok_0->Left_0.store == Store::Tree && r->Ok_0->Left_0.info_type == StoreInfoType::Content
             && r->Ok_0->Left_0.index == 40 * index && r->Ok_0->Left_0.length == Some(40u64) && r->Ok_0->Left_0.allow_miss == allow_miss,
         r is Ok && r->Ok_0 is Right && r->Ok_0->Right_0 is Some ==> !r->Ok_0->Right_0->Some_0.blank,
-        r is Ok && r->Ok_0 is Right && r->Ok_0->Right_0 is None ==> allow_miss
+        r is Ok && r->Ok_0 is Right && r->Ok_0->Right_0 is None ==> allow_miss,
+        // a node that is returned is the trusted one (never one made up from the request)
+        r is Ok && r->Ok_0 is Right && r->Ok_0->Right_0 is Some ==> self.trusted(index, nodes) is Some && Node::eqv(r->Ok_0->Right_0->Some_0, self.trusted(index, nodes)->Some_0),
+        // and nothing is read from disk for a node that is already known
+        r is Ok && r->Ok_0 is Left ==> self.trusted(index, nodes) is None && !self.unflushed@.contains_key(index) && !nodes@.contains_key(index)
     @*/
     /*@ fn src/tree/merkle_tree.rs MerkleTree::required_node
     tags: C09 C03 C04
@@ -387,7 +453,8 @@ impl MerkleTree {
     requires:
         self.t_wf(), index < 0x400_0000_0000
     ensures:
-        r is Ok && r->Ok_0 is Left ==> r->Ok_0->Left_0.store == Store::Tree && r->Ok_0->Left_0.index == 40 * index && !r->Ok_0->Left_0.allow_miss
+        r is Ok && r->Ok_0 is Left ==> r->Ok_0->Left_0.store == Store::Tree && r->Ok_0->Left_0.index == 40 * index && !r->Ok_0->Left_0.allow_miss,
+        r is Ok && r->Ok_0 is Right ==> self.trusted(index, nodes) is Some && Node::eqv(r->Ok_0->Right_0, self.trusted(index, nodes)->Some_0)
     @*/
     /*@ fn src/tree/merkle_tree.rs MerkleTree::optional_node
     tags: C09 C03
@@ -467,6 +534,15 @@ impl MerkleTree {
         r is Ok && r->Ok_0 is Right && proof.upgrade is Some ==> r->Ok_0->Right_0.fork == proof.fork
             && r->Ok_0->Right_0.signature is Some && r->Ok_0->Right_0.hash is Some && r->Ok_0->Right_0.hash->Some_0@.len() == 32
             && crypto::sig_ok(*public_key, crypto::spec_signable(crypto::h_tree(r->Ok_0->Right_0.roots@), r->Ok_0->Right_0.length, proof.fork), r->Ok_0->Right_0.signature->Some_0)
+    before `if let Some(unverified_block_root_node) = unverified_block_root_node {`:
+        let ghost unverified = unverified_block_root_node;
+    before `if instructions.is_empty() {`:
+        // C04 stored-root gate: a root that no accepted upgrade has vouched for is accepted only if the node this replica
+        // already trusts at that index (unflushed or just read from its own tree store) carries the same hash ...
+        assert(unverified is Some && instructions@.len() == 0 ==> self.trusted(unverified->Some_0.index, &nodes) is Some
+            && self.trusted(unverified->Some_0.index, &nodes)->Some_0.hash@ == unverified->Some_0.hash@);
+        // ... and for a block section without upgrade that root is the one recomputed from the received bytes
+        assert(proof.upgrade is None && proof.block is Some && no_seek_nodes_o(proof.seek) ==> unverified is Some && sn(unverified->Some_0) == block_root(&proof.block->Some_0));
     after `let mut changeset = self.changeset();`:
         proof {
             lemma_roots_sum_same(changeset.roots@, self.roots@);
